@@ -243,8 +243,9 @@ class Run:
                     io = r["impl"][li]
                     d = (None if io == mo else "differs") if compare is None else compare(c, io, mo)
                     if d is not None:
-                        self.disagreements.append({"case": c, "line": r["lines"][li], "impl": io,
-                                                   "model": mo, "what": d})
+                        self.disagreements.append({"case": r.get("replay_case", c),
+                                                   "line": r["lines"][li][:2000], "impl": io[:2000],
+                                                   "model": mo[:2000], "what": d})
                 for ci, r in enumerate(rs):
                     if "crash" in r:
                         continue
@@ -259,7 +260,7 @@ class Run:
                         self.extra[k] = max(self.extra.get(k, 0), v)
                     for (clause, key, detail) in r.get("violations", []):
                         self.violations.append({"clause": clause, "key": key, "detail": detail,
-                                                "case": cs[ci]})
+                                                "case": r.get("replay_case", cs[ci])})
                 if stop_on_violation and self.unexplained():
                     for _, f in pending:
                         f.cancel()
